@@ -194,6 +194,11 @@ CORPUS = [
          old="\tif n == len(buf) {\n\t\terr = nil\n\t}\n\treturn\n}", new="\tif n == len(buf) {\n\t\terr = nil\n\t} else if err == io.ErrUnexpectedEOF {\n\t\terr = io.EOF\n\t}\n\treturn\n}"),
     dict(name="C08-reset-keeps-the-frame-of-a-running-stream", kind="break", props=["C08"], file="reader.go",
          old="\t\tr.frame.Blocks.CancelR(r.reads)\n\t\tr.frame = lz4stream.NewFrame()\n", new="\t\tr.frame.Reset(r.num)\n"),
+    # ---- Blocks.CancelR, verified as a fragment since session 4 (was trusted) ----
+    dict(name="C17-cancelr-writes-outside-its-frame", kind="break", props=["C17"], file="internal/lz4stream/block.go",
+         old="\tb.closeR(io.ErrClosedPipe)\n\tfor buf := range reads {", new="\tb.closeR(io.ErrClosedPipe)\n\tb.Block = nil\n\tfor buf := range reads {"),
+    dict(name="C17-benign-cancelr-loop-form", kind="benign", props=["C17"], file="internal/lz4stream/block.go",
+         old="\tfor buf := range reads {\n\t\tlz4block.Put(buf)\n\t}\n}\n\n// closeR safely", new="\tfor {\n\t\tbuf, ok := <-reads\n\t\tif !ok {\n\t\t\tbreak\n\t\t}\n\t\tlz4block.Put(buf)\n\t}\n}\n\n// closeR safely"),
     # ---- renamed locals (the `locals` line of the contract maps the old names by position) ----
     dict(name="C10-benign-rename-anchor", kind="benign", props=["C10"], file="internal/lz4block/block.go",
          regex=r"\banchor\b", new="anch"),
